@@ -294,6 +294,38 @@ func (a *Automaton) Run() *Result {
 			if _, ok := m[st]; !ok {
 				m[st] = k
 			}
+			if rt, ok := in.(*ssa.Return); ok {
+				if sp := SplitOf(rt); sp != nil {
+					// logical returns of a tail return (see SplitOf)
+					cond := Cond{IsRel: true, Op: token.NEQ, X: a.P.D(sp.Val), Y: "nil", XV: sp.Val}
+					for e, twin := range []*ssa.Return{sp.Err, sp.Nil} {
+						ns := st
+						for ti, t := range a.Tracks {
+							if t.If == nil {
+								continue
+							}
+							if m, on := t.If(cond, nil); m {
+								for _, kj := range kills[ti] {
+									ns = ns.set(kj, Unseen)
+								}
+								v := on
+								if e == 1 {
+									v = 3 - v
+								}
+								ns = ns.set(ti, v)
+							}
+						}
+						tm := r.at[twin]
+						if tm == nil {
+							tm = map[State]nodeKey{}
+							r.at[twin] = tm
+						}
+						if _, ok := tm[ns]; !ok {
+							tm[ns] = k
+						}
+					}
+				}
+			}
 			if a.StopAt != nil && a.StopAt(in) {
 				return
 			}
